@@ -11,8 +11,8 @@ pub fn prop() -> HistProp {
         focus: &["C06"],
         opts: HistOpts { mechs: vec![0, 0, 0, 1, 2], max_ops: 40, reliable_weight: 1, timer_weight: 12, deliver_weight: 2, send_weight: 3, hostile: 0, ..HistOpts::default() },
         drain: true,
-        quick: 30_000,
-        thorough: 600_000,
+        quick: 200_000,
+        thorough: 2_000_000,
         rule: "operation histories generated as one value (sends with application attributes, indications, clock advances, timer calls exact/early/late, replies to outstanding/finished/unknown ids with every authentication and fingerprint variant, 401/438 challenges, garbage and mutated buffers) run against a real client and the reference tracker in lock-step under a virtual clock; configurations Rc 1-10, Rm 1-32, RTO 1 ms-3 s, granularity 1 us-100 ms, or reliable with timeout 1 ms-60 s; timer-heavy histories with 1-8 requests started at different instants, optional warm-up exchanges so the RTO is a learned value; every (re)transmission must fall in a timer call at or after an unused slot t0+(2^k-1)RTO (RTO read at send time), at most one per call, at most Rc, byte-identical; failure exactly at the first call at or after t0+(2^(Rc-1)-1+Rm)RTO; the armed expiry equals the model's; plus the fixed default schedule 0/500/1500/3500/7500/15500/31500 ms and failure at 39500 ms; non-trivial = a late call skipped at least one slot, or at least 2 requests were outstanding together; distinct = hash of the history",
         assumptions: &["the per-request RTO is the estimator value read through the hook right after send_request (C15 checks that value separately)"],
         nontrivial: |_, s| s.skipped_slots > 0 || s.max_concurrency >= 2,
